@@ -190,13 +190,13 @@ def Box3.extendByBox {α : Type} [LT α] [DecidableLT α] (b : Box3 α) (o : Box
   ⟨⟨(smin b.min.x o.min.x), (smin b.min.y o.min.y), (smin b.min.z o.min.z)⟩, ⟨(smax b.max.x o.max.x), (smax b.max.y o.max.y), (smax b.max.z o.max.z)⟩⟩
 
 /-- extracted from the C++ template at T = Sym; 7 path(s) -/
-def Box3.intersectsPoint {α : Type} [LT α] [LE α] [DecidableLT α] [DecidableLE α] (b : Box3 α) (p : V3 α) : Bool :=
+def Box3.intersectsPoint {α : Type} [LE α] [DecidableLE α] (b : Box3 α) (p : V3 α) : Bool :=
   if b.min.x ≤ p.x then
     if p.x ≤ b.max.x then
       if b.min.y ≤ p.y then
         if p.y ≤ b.max.y then
           if b.min.z ≤ p.z then
-            if p.z < b.max.z then
+            if p.z ≤ b.max.z then
               true
             else
               false
